@@ -38,11 +38,24 @@ def top_op(with_past=True):
     return st.one_of(*alts)
 
 
+def nested_pause():
+    """The same asset paused twice without an unpause in between, a new event of that asset scheduled between the two
+    pauses, the clock advancing in between, then one unpause (and a run so that the resumed events execute)."""
+    d = st.sampled_from([0.25, 0.5, 1, 1.5, 2])
+
+    def build(a, d1, d2, d3, p1, p2, adv1, adv2, adv3):
+        return [['s', a, d1, p1, []], ['p', a], ['run', adv1], ['s', a, d2, p2, []], ['run', adv2], ['p', a],
+                ['run', adv3], ['u', a], ['run', d3 + 3]]
+    return st.builds(build, st.sampled_from([1, 2, 3]), d, d, d, prio, prio, d, d, d)
+
+
 def cases(max_ops, prologue=None, with_past=True, min_ops=8):
     # a final run flushes what is still queued so that late ties are decided too
     epilogue = st.sampled_from([[], [['run', 2]], [['run', 5]], [['run', 1], ['run', 4]]])
+    single = top_op(with_past).map(lambda o: [o])
+    chunk = st.one_of(*([single] * 12 + [nested_pause()]))
     return st.builds(
-        lambda w, ops, ep: {'weights': w, 'ops': (prologue or []) + ops + ep},
+        lambda w, chunks, ep: {'weights': w, 'ops': (prologue or []) + [o for c in chunks for o in c] + ep},
         st.lists(st.sampled_from(WEIGHTS), min_size=1, max_size=6),
-        st.lists(top_op(with_past), min_size=min_ops, max_size=max_ops),
+        st.lists(chunk, min_size=min_ops, max_size=max_ops),
         epilogue)
